@@ -221,7 +221,7 @@ func (ex *Exec) step(g *G) {
 		fr.locals[in] = &FuncV{Fn: in.Fn.(*ssa.Function), Binds: b}
 	case *ssa.MakeMap:
 		ex.objSeq++
-		fr.locals[in] = &MapV{M: &MapObj{ID: ex.objSeq, Typ: in.Type().Underlying().(*types.Map)}}
+		fr.locals[in] = &MapV{M: &MapObj{ID: ex.objSeq, Owner: ex.curOwner, Typ: in.Type().Underlying().(*types.Map)}}
 	case *ssa.MakeChan:
 		sz := ex.getT(fr, in.Size)
 		sz = ex.toWidth(sz, in.Size.Type(), 64)
